@@ -64,6 +64,9 @@ pub struct Style {
     pub plen_width: u8,
     /// set the Will Retain bit although there is no will (pinned leniency S5)
     pub stray_will_retain: bool,
+    /// pad variable-byte-integer property values (Subscription Identifier) to this many bytes
+    #[serde(default)]
+    pub pvar_width: u8,
 }
 
 struct W {
@@ -139,7 +142,7 @@ fn enc_props(w: &mut W, p: &Props, st: &Style, will: bool) {
             PVal::Byte(x) => body.u8(SK::PropByte, *x),
             PVal::U16(x) => body.u16(SK::PropU16, *x),
             PVal::U32(x) => body.u32(SK::PropU32, *x),
-            PVal::Var(x) => body.var(SK::PropVar, *x, 0),
+            PVal::Var(x) => body.var(SK::PropVar, *x, st.pvar_width),
             PVal::Str(x) => {
                 if *id == 0x08 {
                     body.lp(SK::StrLen, SK::ResponseTopic, x)
